@@ -16,7 +16,7 @@
 (*    { sub.pre sub.water [sub.crop nitro.mineral] nitro.move sub.nitro }^k *)
 (*    day.denit day.end }*  run.end                                         *)
 (***************************************************************************)
-EXTENDS FixedPoint, Json, TLC, FiniteSets
+EXTENDS FixedPoint, CalendarFn, Json, TLC, FiniteSets
 
 Trace == ndJsonDeserialize("trace.ndjson")
 
@@ -28,8 +28,9 @@ VARIABLES l,        \* next line to consume
           prev,     \* what is carried from the previous day
           tenv,     \* soil temperature envelope (C19)
           hist,     \* executed management actions (C10, C16), stage history (C09)
-          gwseen    \* groundwater level -> line index of its first occurrence (C15)
-vars == <<l, pc, ix, nsub, acc, prev, tenv, hist, gwseen>>
+          gwseen,   \* groundwater level -> line index of its first occurrence (C15)
+          cal       \* the calendar date of the simulated day, kept by the successor machine of CalendarFn (C04, C05)
+vars == <<l, pc, ix, nsub, acc, prev, tenv, hist, gwseen, cal>>
 
 NoIx == [gen |-> 0, cfg |-> 0, top |-> 0, wea |-> 0, gw |-> 0, inp |-> 0, eva |-> 0, stp |-> 0,
          pre |-> 0, wat |-> 0, crop |-> 0, min |-> 0, mov |-> 0, nit |-> 0, den |-> 0, dend |-> 0, cropPrev |-> 0]
@@ -39,7 +40,7 @@ NoEnv == [init |-> FALSE, lo |-> 0, hi |-> 0]
 NoHist == [fert |-> <<>>, irr |-> <<>>, till |-> <<>>, sow |-> <<>>, harv |-> <<>>, crops |-> <<>>, stageDays |-> <<>>]
 
 TInit == /\ l = 1 /\ pc = "idle" /\ ix = NoIx /\ nsub = 0 /\ acc = NoAcc /\ prev = NoPrev
-         /\ tenv = NoEnv /\ hist = NoHist /\ gwseen = <<>>
+         /\ tenv = NoEnv /\ hist = NoHist /\ gwseen = <<>> /\ cal = FirstDate
 
 E == Trace[l]                                     \* the line being consumed
 IsEvent(e) == l <= Len(Trace) /\ Trace[l].ev = e /\ l' = l + 1
@@ -155,7 +156,12 @@ TFilesScan == /\ IsEvent("files.scan") /\ pc \in {"ended", "panicked"}
 
 TNext == TFilesScan \/ TGen \/ TRunStart \/ TRunConfig \/ TDayTop \/ TDayWeather \/ TDayGw \/ TDayInputs \/ TDayEvatra \/ TDaySteps
          \/ TSubPre \/ TSubWater \/ TSubCrop \/ TNitroMineral \/ TNitroMove \/ TSubNitro \/ TDayDenit \/ TDayEnd \/ TRunEnd
-TSpec == TInit /\ [][TNext]_vars
+\* the calendar machine: set at the start of a run from the first simulated day number (declarative DateOfN),
+\* then advanced by the successor function once per simulated day
+CalNext == cal' = IF Trace[l].ev = "run.config" THEN DateOfN(Trace[l].begin)
+                  ELSE IF Trace[l].ev = "day.top" /\ prev.has THEN NextDate(cal) ELSE cal
+TStep == TNext /\ CalNext
+TSpec == TInit /\ [][TStep]_vars
 
 \* the whole trace was consumed (a hook or the harness is out of step with the skeleton otherwise)
 TraceAccepted == TLCGet("stats").diameter - 1 = Len(Trace)
@@ -340,10 +346,47 @@ C07_FixationOnce == (AfterCrop /\ Crop.subd = 1) =>
    LAbsLe(LSub(D(Crop, Top, "NFIXSUM"), IF Crop.growing THEN Crop.schnorr ELSE LZero), TolN)
 C07_All == C07_NonNeg /\ C07_MineralExact /\ C07_FertTill /\ C07_InputsOnly /\ C07_Dissolved /\ C07_CreditOnce /\ C07_FixationOnce
 
+
+\* =============================================================================================
+\* C04  every simulated day is driven by the weather record of exactly that date
+\*      (the generated series is in the header line: Gen.wx[i] = <<tavg, tmin, tmax, rh, rad, wind, rain, sun>> in
+\*       tenths of the input unit, Gen.none marks a missing optional value, Gen.wx0 = day number of the first record)
+\* =============================================================================================
+AfterWeather == l > 1 /\ Ev.ev = "day.weather"
+HasGen == ix.gen > 0 /\ Has(Gen, "wx")
+WxIdx(z) == z - Gen.wx0 + 1
+Covered(z) == WxIdx(z) \in 1..Len(Gen.wx) /\ ~(\E i \in 1..Len(Gen.gaps) : Gen.gaps[i] = z)
+WRec(z) == Gen.wx[WxIdx(z)]
+\* the day loop stays in lock-step with the calendar
+\* (judged on covered days; an uncovered day that is simulated at all is C04_NoSilentReuse's business)
+C04_Lockstep == (AfterWeather /\ (HasGen => Covered(Ev.zeit))) => /\ Ev.zeit = cal.n /\ Ev.year = cal.y /\ Ev.doy = cal.doy
+                                                                 /\ Ev.jtag >= Ev.doy /\ Ev.jtag <= DaysInYear(cal.y)
+\* a missing optional value is the mean of the adjacent days
+Filled(z, k) == IF WRec(z)[k] # Gen.none THEN WRec(z)[k] * 100000
+                ELSE (WRec(z - 1)[k] + WRec(z + 1)[k]) * 50000
+ExpTemp(z) == IF Gen.layout = 2 THEN (WRec(z)[2] + WRec(z)[3]) * 50000 ELSE Filled(z, 1)
+ExpRain(z) == WRec(z)[7] * Gen.cor[cal.m] * 100              \* mm -> cm, monthly correction factor in hundredths
+ExpRad(z) == IF WRec(z)[5] = Gen.none THEN 0 ELSE WRec(z)[5] * 50000   \* PAR = half of global radiation
+C04_Record == (AfterWeather /\ HasGen /\ Covered(Ev.zeit)) =>
+   LET z == Ev.zeit IN
+   /\ Ev.temp = ExpTemp(z)
+   /\ Ev.tmin = WRec(z)[2] * 100000 /\ Ev.tmax = WRec(z)[3] * 100000
+   /\ Ev.rh = WRec(z)[4] * 100000
+   /\ Ev.rad = ExpRad(z)
+   /\ (Ev.wind = WRec(z)[6] * 100000 \/ Ev.wind = Max(WRec(z)[6] * 100000, 500000))
+   /\ Ev.rain = ExpRain(z)
+   /\ (Gen.hasSun => Ev.sund = Filled(z, 8))
+\* a day the input does not cover is never simulated: the run ends with an error instead
+C04_NoSilentReuse == (AfterWeather /\ HasGen) => Covered(Ev.zeit)
+\* ... and a run whose input does not cover its period does not report success
+C04_FailsWhenUncovered == (l > 1 /\ Ev.ev = "run.end" /\ HasGen /\ Gen.expectFail) => ~Ev.ok
+C04_All == C04_Lockstep /\ C04_Record /\ C04_NoSilentReuse /\ C04_FailsWhenUncovered
+
 \* ---------------------------------------------------------------------------------------------
 Alias == [l |-> l, pc |-> pc, nsub |-> nsub,
           ev |-> IF l > 1 THEN Trace[l - 1].ev ELSE "none",
           zeit |-> IF l > 1 /\ Has(Trace[l - 1], "zeit") THEN Trace[l - 1].zeit ELSE 0,
           subd |-> IF l > 1 /\ Has(Trace[l - 1], "subd") THEN Trace[l - 1].subd ELSE 0,
-          run |-> IF l > 1 /\ Has(Trace[l - 1], "run") THEN Trace[l - 1].run ELSE "none"]
+          run |-> IF l > 1 /\ Has(Trace[l - 1], "run") THEN Trace[l - 1].run ELSE "none",
+          date |-> cal]
 =============================================================================
